@@ -49,8 +49,8 @@ THEMES = {
 THOROUGH = {
     'numbers': dict(leaves=4, depth=2, width=2),
     'strings': dict(leaves=4, depth=2, width=2),
-    'keys': dict(leaves=4, depth=2, width=3),
-    'structure': dict(leaves=7, depth=4, width=3),
+    'keys': dict(leaves=4, depth=2, width=2),
+    'structure': dict(leaves=6, depth=3, width=2),
 }
 
 RULE = ('every JSON value the JsonValue.tla generator derives per theme '
@@ -159,16 +159,16 @@ def main(tier, seed, replay=None):
     texts = sorted(texts)
     for t in texts:
         json.loads(t)           # the concretiser emits valid JSON only
-    work = [(t, form, fold) for t in texts for form in FORMS
-            for fold in (False, True)]
-    res = impl.pmap(_extract, work, chunk=500)
-    distinct = set()
-    for (text, form, fold), r in zip(work, res):
-        rep.count('evaluations')
-        if len(text) > 4:
-            distinct.add((text, form, fold))
-        if r is None:
-            continue
+    distinct = 0
+    passes = [(form, fold) for form in FORMS for fold in (False, True)]
+    results = []
+    for form, fold in passes:       # one pass per configuration (memory)
+        work = [(t, form, fold) for t in texts]
+        res = impl.pmap(_extract, work, chunk=500)
+        rep.cov['evaluations'] = rep.cov.get('evaluations', 0) + len(work)
+        distinct += sum(1 for t in texts if len(t) > 4)
+        results.extend((w, r) for w, r in zip(work, res) if r is not None)
+    for (text, form, fold), r in results:
         # name the kind of value at which the results differ
         kinds = sorted({k for k, v in list(NUM.items()) + list(STR.items())
                         if v in text and len(v) > 2} )
@@ -178,7 +178,7 @@ def main(tier, seed, replay=None):
                       % (r[2], fold, r[1], r[3] if len(r) > 3 else '?'),
                       {'source': r[2], 'fold_ops': fold, 'got': r[1],
                        'expected': r[3] if len(r) > 3 else None})
-    rep.cov['distinct_nontrivial'] = len(distinct)
+    rep.cov['distinct_nontrivial'] = distinct
     rep.sample({'literal': texts[len(texts) // 2]})
     rep.sample({'literal': texts[-1]})
     return rep.finish(RULE, exhaustive=True)
